@@ -150,9 +150,23 @@ pub broadcast axiom fn axiom_pat_char_utf8(c: char)
         #[trigger] super::pat_bytes::<char>(c) == vstd::utf8::encode_utf8(seq![c]),
 ;
 
+/// A-LD-FROM-STR (trusted): `String::from(&str)` copies the text (vstd routes `From::from` through `FromSpec`, which
+/// it leaves uninterpreted for this pair of types)
+pub broadcast axiom fn axiom_string_obeys_from_str()
+    ensures
+        #[trigger] <String as vstd::std_specs::convert::FromSpec<&str>>::obeys_from_spec(),
+;
+
+pub broadcast axiom fn axiom_string_from_str(s: &str)
+    ensures
+        (#[trigger] <String as vstd::std_specs::convert::FromSpec<&str>>::from_spec(s))@ == s@,
+;
+
 pub broadcast group group_ld {
     axiom_string_from_iter_char,
     axiom_pat_char_utf8,
+    axiom_string_obeys_from_str,
+    axiom_string_from_str,
     super::axiom_decode_encode_utf16,
 }
 }
